@@ -1,6 +1,7 @@
 package main
 
 import (
+	"regexp"
 	"go/token"
 	_ "embed"
 	"fmt"
@@ -165,7 +166,11 @@ func rejectingReturns(fn *ssa.Function, sp rejectSpec) []*ssa.Return {
 // canonReason makes a reason independent of how unexported helpers are named, shaped (method or function) and
 // called: the result of an unexported module function is `call:<pkg>.?` whatever its name and arguments. (The
 // reason then says "index found by a helper is negative", not which helper.)
+var fromSuffix = regexp.MustCompile(`\(from \d+\)`)
+
 func canonReason(d string) string {
+	// a walk that starts after the first element rejects on the same condition for fewer elements: the same reason
+	d = fromSuffix.ReplaceAllString(d, "")
 	// a sorted list of a map's keys is a locally built key list however it is built
 	for {
 		i := strings.Index(d, "call:slices.Sorted(call:maps.Keys(")
